@@ -74,7 +74,9 @@ class ChildScalar(np.lib.mixins.NDArrayOperatorsMixin):
         if self._array is None:
             hparent = self.child.hparent
             filt_arr = hparent.filter.all
-            self._array = hparent[self.feat][filt_arr]
+            self._array = np.array(hparent[self.feat][filt_arr])
+            # The cached array (or views of it) is handed out to the user.
+            self._array.setflags(write=False)
         return np.array(self._array, dtype=dtype, copy=copy, *args, **kwargs)
 
     def __getitem__(self, idx):
